@@ -57,6 +57,10 @@ func StartKeygenCommon(taproot bool, group curve.Curve, participants []party.ID,
 			for _, k := range participants {
 				verificationSharesCopy[k] = group.NewPoint()
 			}
+		} else {
+			// the rounds update the share in place: work on a copy, so that the caller's
+			// configuration of the previous epoch stays intact
+			privateShare = group.NewScalar().Set(privateShare)
 		}
 
 		return &round1{
